@@ -324,8 +324,10 @@ def r051_struct_expr(be, rep, kind='TY_STRUCT', word='struct'):
             if used:
                 used = field(r, 'kind') == be.E['ND_ASSIGN'] and field(r, 'rhs') is e
         rep.ob('R05.1', '%s:%s:%s-valued-initializer/%s' % (U, fn, word, 'used' if used else 'ignored'), used,
-               '%s ignores init->expr of a %s: `static %s S s = (%s S){1, 2};` (or any %s-valued initializer expression) is accepted '
-               'without a diagnostic and the object silently keeps the zero fill / is initialised member-wise from an empty list, while the whole-object expression should be assigned or rejected' % (fn, word, word, word, word),
+               ('%s ignores init->expr of a %s: `static %s S s = (%s S){1, 2};` (or any %s-valued initializer expression) is accepted '
+                'without a diagnostic and the object silently keeps the zero fill, while the automatic back end assigns the expression' % (fn, word, word, word, word)) if be.static else
+               ('%s does not turn a %s-valued initializer expression (`%s S x = y;`) into one assignment of the whole object: the object is initialised member-wise from an '
+                'empty list and keeps the zero fill' % (fn, word, word)),
                where=_w(be.u, fn), facts={'path': ctx.trail[-6:]})
     if n == 0:
         rep.undecided('R05.1', '%s:%s:%s-valued-initializer' % (U, fn, word), 'no path')
@@ -451,6 +453,10 @@ def r054_path(be, it, ctx, mems, rep):
             rep.ob('R05.4', '%s:write_gvar_data:bit-field-without-initializer-untouched' % U, not mine,
                    'a bit-field without initializer is written', where=where)
             continue
+        ext = sorted(set(e[1] for e in ctx.events if e[0] == 'call' and e[1] not in ('eval', 'eval2', 'eval_double')))
+        if len(mine) != 1 and ext:
+            rep.undecided('R05.4', '%s:write_gvar_data:bit-field-store' % U, 'the bit-field arm writes through %s(): not interpretable as a typed store' % '/'.join(ext), where=where)
+            continue
         if len(mine) != 1:
             rep.ob('R05.4', '%s:write_gvar_data:bit-field-store-missing' % U, False,
                    'an initialised bit-field member leads to %d stores at buf+offset+mem->offset (expected one read-modify-write of its storage unit)' % len(mine),
@@ -545,6 +551,11 @@ def r052_scalars(P, u, E, cat, rep):
                 done[name] = True
                 continue
             ok, msg, construct = True, '', 'stored'
+            ext = sorted(set(ev[1] for ev in ctx.events if ev[0] == 'call' and ev[1] not in ('eval', 'eval2', 'eval_double')))
+            if len(stores) != 1 and ext:
+                rep.undecided('R05.2', key, 'the scalar arm writes through %s(): not interpretable as a typed store' % '/'.join(ext), where=where)
+                done[name] = True
+                continue
             if len(stores) != 1 or not (isinstance(stores[0][1], Term) and stores[0][1].op == 'mem'):
                 ok = False; construct = 'store-count'; msg = 'a scalar of type class `%s` leads to %d stores into the image (expected exactly one)' % (name, len(stores))
             else:
@@ -623,8 +634,10 @@ def run(P, rep, tier):
     cat = Catalogue(P)
     rep.explanation = ('Both initializer back ends (create_lvar_init, write_gvar_data) are interpreted abstractly per type class with the recursive call cut '
                        '(structural induction over the initializer tree); the sub-objects they visit, the bytes they store, the relocation cursor they thread, '
-                       'the address-constant arms of eval2/eval_rval, string_initializer, lvar_initializer/gvar_initializer and emit_data are compared with oracles '
-                       'transcribed from C11 6.7.9. The designator/brace-elision cursor logic of the parser is decided only for the resume position after an index range.')
+                       'the address-constant arms of eval2/eval_rval, string_initializer, lvar_initializer/gvar_initializer, init_desg_expr, the ND_MEMZERO/ND_COMMA arms of '
+                       'gen_expr and the image walk of emit_data are compared with oracles transcribed from C11 6.7.9. Of the designator/brace-elision cursor logic of the '
+                       'parser only the resume position after a designator (R05.8, sibling agreement of the cursor-walk functions) and whole-aggregate copy initialisation '
+                       'are decided; the token-stream dependent rest (brace elision, excess elements, flexible members) is not.')
     rep.assumptions += ['calloc succeeds', 'loops over members/elements are analysed for 0..2 generic iterations; the facts checked are per-iteration facts',
                         'bit-field members have an integer type of size 1, 2, 4 or 8',
                         'formula rules compare normalised terms (commutativity of | and &); an equivalent rewrite outside that form would be reported']
@@ -644,6 +657,7 @@ def run(P, rep, tier):
             r051_struct_expr(be, rep, 'TY_UNION', 'union')
         r051_union(be, rep)
     r052_scalars(P, u, E, cat, rep)
+    r052_lvar(P, u, E, cat, rep)
     r057_addr(P, u, E, cat, rep)
     r058(P, u, E, rep)
     r055(P, rep)
@@ -1665,3 +1679,86 @@ def r051_copy(P, u, E, rep):
         if n == 0:
             rep.undecided('R05.1', '%s:%s:%s-valued-initializer' % (U, fn, word), 'no returning path')
     return result
+
+
+# ------------------------------------------------------------------------------------------------
+# automatic back end: scalar arm and designator -> lvalue
+# ------------------------------------------------------------------------------------------------
+def r052_lvar(P, u, E, cat, rep):
+    fn = 'create_lvar_init'
+    be = BackEnd(P, u, E, fn)
+    for want_expr in (True, False):
+        it = be.interp()
+        it.opaque_fns.add('init_desg_expr')
+        ie = (lambda ctx: Obj('Node', lazy=True, label='init.expr')) if want_expr else 0
+        n = 0
+        for ctx, out in it.explore(fn, be.args(lambda ctx: type_cell(cat, 'ty', only=SCALARS), init_expr=ie)):
+            if out[0] != 'ret':
+                continue
+            n += 1
+            r = settle(it, out[1])
+            k = field(r, 'kind') if isinstance(r, Obj) else None
+            if want_expr:
+                e = ctx.root_init.fields['expr']
+                lv = [ev for ev in ctx.events if ev[0] == 'call' and ev[1] == 'init_desg_expr']
+                good = k == E['ND_ASSIGN'] and field(r, 'rhs') is e and len(lv) == 1 and settle(it, field(r, 'lhs')) is settle(it, lv[0][4]) \
+                    and settle(it, lv[0][2][0]) is ctx.p_desg
+                rep.ob('R05.2', '%s:%s:scalar-is-assigned' % (U, fn), bool(good),
+                       'a scalar sub-object of an automatic variable with an initializer expression is not turned into `designated lvalue = expression` (the value is never stored)',
+                       where=_w(u, fn), facts={'path': ctx.trail})
+            else:
+                good = k == E.get('ND_NULL_EXPR') and not [ev for ev in ctx.events if ev[0] == 'call' and ev[1] == 'init_desg_expr']
+                rep.ob('R05.2', '%s:%s:scalar-without-initializer-keeps-zero' % (U, fn), bool(good),
+                       'a scalar sub-object without initializer does not keep the zero fill (an assignment is generated for it)', where=_w(u, fn), facts={'path': ctx.trail})
+        if n == 0:
+            rep.undecided('R05.2', '%s:%s:scalar' % (U, fn), 'no returning path for scalars')
+    # designator chain -> lvalue expression
+    fn = 'init_desg_expr'
+    _need(u, fn)
+
+    def h_rec(it, ctx, n, a):
+        r = Obj('Node', lazy=True, label=ctx.fresh('outer-lvalue'))
+        ctx.emit('rec', a, r, n.line)
+        return r
+
+    def h_add(it, ctx, n, a):
+        r = Obj('Node', lazy=True, label=ctx.fresh('new_add'))
+        ctx.emit('add', a, r, n.line)
+        return r
+    it = TInterp(P, u, {'cut': {fn: h_rec}, 'models': {'new_add': h_add}, 'track_stores': True})
+
+    def mk(ctx):
+        d = Obj('InitDesg', lazy=True, label='desg')
+        ctx.desg = d
+        return [d, Obj('Token', lazy=True, label='tok')]
+    seen = set()
+    for ctx, out in it.explore(fn, mk):
+        if out[0] != 'ret':
+            continue
+        d = ctx.desg
+        r = settle(it, out[1])
+        var, mem = field(d, 'var'), field(d, 'member')
+        recs = [e for e in ctx.events if e[0] == 'rec']
+        where = _w(u, fn)
+        if isinstance(var, Obj):
+            seen.add('var')
+            good = isinstance(r, Obj) and field(r, 'kind') == E['ND_VAR'] and field(r, 'var') is var and not recs
+            rep.ob('R05.1', '%s:%s:root-is-the-variable' % (U, fn), bool(good), 'the root designator does not become a reference to the variable being initialised', where=where)
+        elif isinstance(mem, Obj):
+            seen.add('member')
+            good = isinstance(r, Obj) and field(r, 'kind') == E['ND_MEMBER'] and field(r, 'member') is mem and len(recs) == 1 and field(r, 'lhs') is recs[0][2] \
+                and settle(it, recs[0][1][0]) is settle(it, d.fields.get('next'))
+            rep.ob('R05.1', '%s:%s:member-designator-is-member-access' % (U, fn), bool(good),
+                   'a member designator does not become `outer.member` with the designated member (the assignment would go to another member)', where=where)
+        elif is_null(var) and is_null(mem):
+            seen.add('index')
+            adds = [e for e in ctx.events if e[0] == 'add']
+            good = isinstance(r, Obj) and field(r, 'kind') == E['ND_DEREF'] and len(adds) == 1 and field(r, 'lhs') is adds[0][2] and len(recs) == 1
+            if good:
+                a = adds[0][1]
+                num = settle(it, a[1])
+                good = settle(it, a[0]) is recs[0][2] and isinstance(num, Obj) and field(num, 'kind') == E['ND_NUM'] and same(it, field(num, 'val'), d.fields.get('idx')) and 'idx' in d.fields
+            rep.ob('R05.1', '%s:%s:index-designator-is-element-access' % (U, fn), bool(good),
+                   'an index designator does not become `*(outer + idx)` with the designated index (the assignment would go to another element)', where=where)
+    if seen != {'var', 'member', 'index'}:
+        rep.undecided('R05.1', '%s:%s' % (U, fn), 'designator forms recognised: %s' % sorted(seen))
